@@ -26,6 +26,9 @@ import (
 // slices conditionally); the library may read it, not append into it
 var sharedOpts = make([]be.IndexOpt, 0, 4)
 
+// sharedHints: a candidate list several goroutines prime their own scanners with (WithHint(sharedHints...))
+var sharedHints []int64
+
 type seqAnswer struct {
 	docs []int64
 	hits [][3]int64
@@ -198,6 +201,15 @@ func race07Main(args []string) {
 		}
 		rc.Docs = docs
 		ridx, _, _ = buildRoaring(&rc)
+		// one candidate list (every indexed id among 100 unknown ones, in no particular order) that all goroutines
+		// pass to WithHint as it is: hinted with it, a scan returns what the unhinted scan returns
+		for k := 0; k < 100; k++ {
+			sharedHints = append(sharedHints, int64(5000-37*k))
+		}
+		for k, d := range rc.Docs {
+			sharedHints = append(sharedHints, d.ID)
+			sharedHints[k%len(sharedHints)], sharedHints[len(sharedHints)-1] = sharedHints[len(sharedHints)-1], sharedHints[k%len(sharedHints)]
+		}
 		sc := roaringidx.NewScanner(ridx)
 		for i := range cases[0].Queries {
 			sc.Reset()
@@ -218,6 +230,48 @@ func race07Main(args []string) {
 			msgs = append(msgs, m)
 		}
 		mu.Unlock()
+	}
+	// rounds of hinted retrievals that all start at once and share ONE fresh candidate list (every indexed id among
+	// 1500 unknown ones, shuffled): each must return what the unhinted retrieval returns alone
+	if ridx != nil {
+		hr := &Rand{s: seed*77 + 5}
+		t0 := time.Now()
+		for round := 0; round < 80 && time.Since(t0) < 4*time.Second; round++ {
+			qi := round % len(rseq)
+			if rerr[qi] {
+				continue
+			}
+			list := make([]int64, 0, 1500+len(rc.Docs))
+			for k := 0; k < 1500; k++ {
+				list = append(list, hr.I64(100000, 1<<40))
+			}
+			for _, d := range rc.Docs {
+				list = append(list, d.ID)
+			}
+			for k := len(list) - 1; k > 0; k-- {
+				j := hr.Intn(k + 1)
+				list[k], list[j] = list[j], list[k]
+			}
+			start := make(chan struct{})
+			var hw sync.WaitGroup
+			for g := 0; g < 4; g++ {
+				hw.Add(1)
+				go func() {
+					defer hw.Done()
+					sc := roaringidx.NewScanner(ridx)
+					<-start
+					var d []uint64
+					var e error
+					p := safeCall(func() { sc.WithHint(list...); d, e = sc.Retrieve(cases[0].Queries[qi].build()) })
+					atomic.AddInt64(&ops, 1)
+					if p || e != nil || !reflect.DeepEqual(d, rseq[qi]) {
+						report(fmt.Sprintf("roaring query %d hinted with a candidate list shared by 4 simultaneous retrievals: %d documents, alone %d", qi, len(d), len(rseq[qi])))
+					}
+				}()
+			}
+			close(start)
+			hw.Wait()
+		}
 	}
 	// failing retrievals (a value no parser supports on a known field) before and during the concurrent
 	// phase: an error path that leaves shared state (pools) inconsistent shows up as a race or a wrong answer
@@ -273,6 +327,9 @@ func race07Main(args []string) {
 						if sc != nil && r.Chance(25) {
 							i := r.Intn(len(rseq))
 							sc.Reset()
+							if r.Bool() {
+								sc.WithHint(sharedHints...)
+							}
 							var d []uint64
 							var e error
 							p := safeCall(func() { d, e = sc.Retrieve(cases[0].Queries[i].build()) })
